@@ -161,7 +161,7 @@ func (m *mux) _pipe(ctx context.Context, i uint16) (w wire, err error) {
 		return w, nil
 	}
 
-	verifYield(ctx, "mux.pipe", m, Completed{})
+	verifYield(ctx, "mux.pipe", &m.muxwires[i], Completed{})
 	m.muxwires[i].mu.Lock()
 	sc := m.muxwires[i].sc
 	if m.muxwires[i].sc == nil {
